@@ -293,6 +293,16 @@ type loadOutcome struct {
 	msg             string
 }
 
+// ctlSummary renders every typed field of the decoded control paragraph (the Pkg component of the outcome): two loads
+// of the same bytes must agree on all of them.
+func ctlSummary(d *deb.Deb) string {
+	c := &d.Control
+	return fmt.Sprintf("%s|src=%s|ver=%s|arch=%s|maint=%s|isize=%d|ma=%s|dep=%s|rec=%s|sug=%s|brk=%s|rep=%s|bu=%s|sec=%s|prio=%s|home=%s|desc=%q",
+		c.Package, c.Source, c.Version.String(), c.Architecture.String(), c.Maintainer, c.InstalledSize, c.MultiArch,
+		c.Depends.String(), c.Recommends.String(), c.Suggests.String(), c.Breaks.String(), c.Replaces.String(), c.BuiltUsing.String(),
+		c.Section, c.Priority, c.Homepage, c.Description)
+}
+
 var hangs int64 // deb.Load executions that did not return (their goroutines keep spinning)
 
 // WithMapOrder runs f; on the instrumented build the SECOND load of every input runs with every map scan inside
@@ -331,6 +341,7 @@ func driveLoad(b []byte, conv int, second ...bool) loadOutcome {
 		}
 		sort.Strings(names)
 		if p, msg := mc.Guard(func() {
+			o.Pkg = ctlSummary(d)
 			for _, k := range names {
 				e := d.ArContent[k]
 				if e == nil {
